@@ -64,6 +64,15 @@ Fixpoint grad_of (f : fk) (x : qvec) : qvec :=
   | _ => map (fun _ => 0) x
   end.
 
+(* conjugate prox with an array-valued step (adupdates with array inner_stepsizes) *)
+Fixpoint ccprox_of_v (f : fk) (s : qvec) (x : qvec) : qvec :=
+  match f with
+  | FL2sq lam => vmap2 (fun a si => Qred (a / (1 + si / (2 * lam)))) x s
+  | FBox lo hi => vmap2 (fun a si => Qred (a - si * qclip lo hi (a / si))) x s
+  | FTrans f c => ccprox_of_v f s (vsub x (vmul s c))
+  | _ => ccprox_of f 1 x
+  end.
+
 (* validation of the family itself against the library *)
 Record case_fk := { kf_f : fk; kf_s : Q; kf_x : qvec;
                     kf_prox : option qvec; kf_cc : option qvec; kf_grad : option qvec }.
@@ -90,17 +99,22 @@ Definition check_admm (k : case_admm) : bool :=
   && vsclose (ka_ref k) (admm_ref_trace L Ladj pf pg (ka_tau k) (ka_sigma k) m (ka_n k) (ka_x k)).
 
 (* ---- adupdates ---- *)
-Record case_adup := { kd_nc : nat; kd_Ms : list qmat; kd_gs : list fk; kd_inner : list Q; kd_keys : list nat;
+Record case_adup := { kd_nc : nat; kd_Ms : list qmat; kd_gs : list fk; kd_inner : list Q;
+                      kd_inner_v : list (option qvec); kd_keys : list nat;
                       kd_step : Q; kd_x : qvec; kd_n : nat;
                       kd_outer : list qvec;      (* adupdates, callback_loop='outer' *)
                       kd_inner_tr : list qvec;   (* adupdates, callback_loop='inner' *)
                       kd_ref : list qvec }.      (* adupdates_simple run with niter = 1..n from the start *)
-Fixpoint mk_adops (nc : nat) (step : Q) (Ms : list qmat) (gs : list fk) (inn : list Q) (keys : list nat)
-  : list (@adop Q) :=
-  match Ms, gs, inn, keys with
-  | M :: Ms', g :: gs', i :: inn', key :: keys' =>
-      mk_adop (mop M) (madj nc M) (ccprox_of g (step * i)) i (length M) key :: mk_adops nc step Ms' gs' inn' keys'
-  | _, _, _, _ => []
+Fixpoint mk_adops (nc : nat) (step : Q) (Ms : list qmat) (gs : list fk) (inn : list Q) (innv : list (option qvec))
+  (keys : list nat) : list (@adop Q) :=
+  match Ms, gs, inn, innv, keys with
+  | M :: Ms', g :: gs', i :: inn', iv :: innv', key :: keys' =>
+      let px := match iv with
+                | None => ccprox_of g (step * i)
+                | Some v => ccprox_of_v g (vscal step v)
+                end in
+      mk_adop (mop M) (madj nc M) px i iv (length M) key :: mk_adops nc step Ms' gs' inn' innv' keys'
+  | _, _, _, _, _ => []
   end.
 Fixpoint ad_ref_finals (ops : list (@adop Q)) (step : Q) (x : qvec) (n : nat) (s : qvec * list qvec) (k : nat)
   : list qvec :=
@@ -109,7 +123,7 @@ Fixpoint ad_ref_finals (ops : list (@adop Q)) (step : Q) (x : qvec) (n : nat) (s
   | S k' => let s' := ad_ref_step step ops s in fst s' :: ad_ref_finals ops step x n s' k'
   end.
 Definition check_adup (k : case_adup) : bool :=
-  let ops := mk_adops (kd_nc k) (kd_step k) (kd_Ms k) (kd_gs k) (kd_inner k) (kd_keys k) in
+  let ops := mk_adops (kd_nc k) (kd_step k) (kd_Ms k) (kd_gs k) (kd_inner k) (kd_inner_v k) (kd_keys k) in
   let tmps0 := map (fun _ => []) ops in
   vsclose (kd_outer k) (ad_opt_trace (kd_step k) ops (kd_n k) tmps0 (kd_x k))
   && vsclose (kd_inner_tr k) (ad_opt_trace_inner (kd_step k) ops (kd_n k) (kd_x k, ad_duals0 ops, tmps0))
